@@ -130,12 +130,12 @@ def negotiation_script(rng, chain):
     wseq = {1: rng.choice([100, 65533]), 3: rng.choice([7, 30000]), 5: 65000}
     ident = [0]
 
-    def write(s, n=1):
+    def write(s, n=1, shape=None):
         for _ in range(n):
             ident[0] += 1
             wseq[s] += 1
             steps.append({"a": "wrtp", "s": s, "w": wseq[s] % 65536, "id": ident[0], "len": rng.choice([0, 1, 40, 1200]),
-                          "shape": rng.choice([0, 0, 1, 2, 3, 5, 6, 7, 8, 9, 10, 11]), "fail": False})
+                          "shape": rng.choice([0, 0, 1, 2, 3, 5, 6, 7, 8, 9, 10, 11]) if shape is None else shape, "fail": False})
 
     def nack(s):
         ident[0] += 1
@@ -157,6 +157,9 @@ def negotiation_script(rng, chain):
         write(s)
     nack(3)
     read()
+    for s in (1, 3, 5):          # every packet shape on every stream, whatever it negotiated (in every run, not left to the sample)
+        for shape in (10, 11, 9, 7, 6, 3, 2, 1):
+            write(s, shape=shape)
     steps.append({"a": "unbindl", "s": 3})
     write(1)
     write(5)
